@@ -39,8 +39,8 @@ func runC15(c *Ctx) {
 	}
 	L.Floor("mask-window", 3, "one store, three goals")
 
-	c.checkAlphabetConsts("alphabet-wildcard", map[string]bool{"(*align).Mask": true, "(*align).MaskOccurences": true})
-	L.Floor("alphabet-wildcard", 4, "2 constants in each of Mask, MaskOccurences")
+	c.checkAlphabetConsts("alphabet-wildcard", c.helperDeclsOf("align", [2]string{"*align", "Mask"}, [2]string{"*align", "MaskOccurences"}))
+	L.Floor("alphabet-wildcard", 2, "both wildcard constants are used by the masking functions (or a helper they share)")
 	for _, r := range []*fnRef{mask, occ} {
 		c.checkReplacementDispatch(r)
 		c.checkStoredValue(r)
@@ -743,38 +743,77 @@ func (c *Ctx) checkReferenceExcluded(r *fnRef) {
 	}
 	L := c.L
 	fn := r.F
-	ref := paramByName(fn, "refseq")
-	if ref == nil {
-		L.Unknown("reference-excluded", r.label, "refseq", c.P.Pos(fn.Pos()), "parameter not found")
-		return
-	}
-	var neq *ssa.BinOp
+	// the reference-name parameter, by role: the string parameter a row's name is compared with
+	// (its name is only the fallback)
+	var ref *ssa.Parameter
+	var nameCmps []*ssa.BinOp
 	allInstrs(fn, func(in ssa.Instruction) {
 		bo, ok := in.(*ssa.BinOp)
-		if !ok || bo.Op != token.NEQ {
+		if !ok || (bo.Op != token.NEQ && bo.Op != token.EQL) {
 			return
 		}
 		for _, pair := range [][2]ssa.Value{{bo.X, bo.Y}, {bo.Y, bo.X}} {
-			if pair[1] != ssa.Value(ref) {
+			p, isP := pair[1].(*ssa.Parameter)
+			if !isP {
 				continue
 			}
 			if _, f, base := loadedField(pair[0]); base != nil && f == "name" {
-				neq = bo
+				if ref == nil || ref == p {
+					ref = p
+					nameCmps = append(nameCmps, bo)
+				}
 			}
 		}
 	})
-	if neq == nil {
+	if ref == nil {
+		if paramByName(fn, "refseq") == nil {
+			L.Unknown("reference-excluded", r.label, "refseq", c.P.Pos(fn.Pos()), "parameter not found")
+			return
+		}
 		L.Bad("reference-excluded", r.label, "row name != reference name", c.P.Pos(fn.Pos()), "no comparison of the row's name with the reference name: the reference row is counted in the occurrence tables")
 		return
 	}
-	// the counter increments (stores into int tables in the row loop) must be
-	// reachable only through: refseq == "" , or the true branch of neq
-	lp := innermostLoopOf(naturalLoops(fn), neq.Block())
-	n := 0
-	bad := 0
+	// atoms: name == / != ref, and ref == / != ""
+	atoms := map[ssa.Value]bool{}
+	var emptyCmps []*ssa.BinOp
+	for _, bo := range nameCmps {
+		atoms[bo] = true
+	}
+	allInstrs(fn, func(in ssa.Instruction) {
+		bo, ok := in.(*ssa.BinOp)
+		if !ok || (bo.Op != token.NEQ && bo.Op != token.EQL) {
+			return
+		}
+		if (bo.X == ssa.Value(ref) && isEmptyString(bo.Y)) || (bo.Y == ssa.Value(ref) && isEmptyString(bo.X)) {
+			atoms[bo] = true
+			emptyCmps = append(emptyCmps, bo)
+		}
+	})
+	lp := innermostLoopOf(naturalLoops(fn), nameCmps[0].Block())
+	if lp == nil {
+		L.Unknown("reference-excluded", r.label, "row loop", c.P.Pos(fn.Pos()), "the name comparison is not inside a loop")
+		return
+	}
+	// every path class of one iteration that reaches a table update knows either that no reference
+	// was given or that this row is not the reference
+	ap := newAtomPaths(func(v ssa.Value) bool { return atoms[v] }, lp.Head)
+	excused := func(alt string) bool {
+		for _, bo := range emptyCmps {
+			if altHas(alt, bo.Name()+"="+map[bool]string{true: "T", false: "F"}[bo.Op == token.EQL]) {
+				return true // refseq == ""
+			}
+		}
+		for _, bo := range nameCmps {
+			if altHas(alt, bo.Name()+"="+map[bool]string{true: "T", false: "F"}[bo.Op == token.NEQ]) {
+				return true // name != refseq
+			}
+		}
+		return false
+	}
+	n, bad := 0, 0
 	allInstrs(fn, func(in ssa.Instruction) {
 		st, ok := in.(*ssa.Store)
-		if !ok || lp == nil || !lp.Blocks[st.Block()] {
+		if !ok || !lp.Blocks[st.Block()] {
 			return
 		}
 		ia, ok := st.Addr.(*ssa.IndexAddr)
@@ -785,32 +824,19 @@ func (c *Ctx) checkReferenceExcluded(r *fnRef) {
 			return
 		}
 		n++
-		// every path from the loop head to the store passes either the
-		// `refseq == ""` true edge or the neq true edge
-		if !passesThrough(lp, st.Block(), func(from, to *ssa.BasicBlock) bool {
-			ifi, ok := from.Instrs[len(from.Instrs)-1].(*ssa.If)
-			if !ok {
-				return false
+		for alt := range ap.at(st.Block()) {
+			if !excused(alt) {
+				bad++
+				break
 			}
-			if ifi.Cond == ssa.Value(neq) && from.Succs[0] == to {
-				return true
-			}
-			if bo, ok := ifi.Cond.(*ssa.BinOp); ok && bo.Op == token.EQL && from.Succs[0] == to {
-				if (bo.X == ssa.Value(ref) && isEmptyString(bo.Y)) || (bo.Y == ssa.Value(ref) && isEmptyString(bo.X)) {
-					return true
-				}
-			}
-			return false
-		}) {
-			bad++
 		}
 	})
 	if n == 0 {
 		L.Unknown("reference-excluded", r.label, "counter updates", c.P.Pos(fn.Pos()), "no table update found in the row loop")
 		return
 	}
-	L.Check(bad == 0, "reference-excluded", r.label, "row name != reference name", c.P.Pos(neq.Pos()),
-		fmt.Sprintf("%d table update(s) in the row loop, each reachable only through `refseq == \"\"` or `name != refseq`", n),
+	L.Check(bad == 0, "reference-excluded", r.label, "row name != reference name", c.P.Pos(nameCmps[0].Pos()),
+		fmt.Sprintf("%d table update(s) in the row loop, every path class to each knows `refseq == \"\"` or `name != refseq`", n),
 		fmt.Sprintf("%d of %d table updates can be reached for the reference row itself", bad, n))
 }
 
